@@ -12,7 +12,7 @@ CONSTANTS
   MaxInstr = 10
   MaxTx = 1
   SupplyCap = 10
-  DataVals = {1, 2}
+  DataVals = {7, 8}
   InitLedgers <- InitFN
   FailOdds = 6
   EndOdds = 5
